@@ -275,7 +275,7 @@ def pre_build(ctx):
 
 
 def known_signature(f, kf):
-    return kf["id"] == "F-COHERENCE" and not R.ucoherent(f.case["costs"])
+    return kf["id"] == "F-COHERENCE" and not R.ucoherent(f.case["costs"]) and R.coherence_signature(f)
 
 
 def replay_known(ctx, kf):
